@@ -305,12 +305,24 @@ void gen_c05(Plan& p, bool thorough) {
     p.tasks[0].push_back(c);
   }
 }
+// a declared capacity far beyond the real buffer: values whose low 16, 31 or 32 bits are zero or small, and the type limits
+static std::string declared_cap(Rng& r) {
+  static const uint64_t base[] = {1ULL << 32, 1ULL << 33, 3ULL << 32, 1ULL << 40, 1ULL << 63, 1ULL << 31, 0xFFFFFFFFULL, 0x7FFFFFFFULL, 1ULL << 18, 1ULL << 24, 1ULL << 48, 0x8000000000000000ULL + (1ULL << 32)};
+  uint64_t v = base[r.below(sizeof(base) / sizeof(base[0]))];
+  switch (r.below(4)) {
+  case 0: break;
+  case 1: v += 1; break;
+  case 2: v += r.below(4096); break;
+  default: v += 4096 + r.below(200000); break;
+  }
+  return "decl" + std::to_string(v);
+}
 void gen_c06(Plan& p, bool thorough) {
   Rng r = rng_for(p.seed, {H("C06"), p.run});
   int prim = primary_param(p.run);
   p.tasks.resize(1);
   static const std::vector<std::string> caps = {"0",        "1",      "hdr-1",   "hdr",     "needed-1", "needed",  "needed+1", "max-1",   "max",
-                                                "max+1",    "frac250", "frac500", "frac900", "frac999",  "needed-8", "hdr+1",    "needed+64", "max+4096", "sizemax"};
+                                                "max+1",    "frac250", "frac500", "frac900", "frac999",  "needed-8", "hdr+1",    "needed+64", "max+4096", "sizemax", "declared"};
   Case km = keymsg_case(r, prim);
   int n = thorough ? 14 : 8;
   for (int i = 0; i < n; i++) {
@@ -320,6 +332,8 @@ void gen_c06(Plan& p, bool thorough) {
     c.set("cap", caps[(p.run / 12 * n + i) % caps.size()]);
     if (ro.chance(1, 5))
       c.set("cap", "frac" + std::to_string(ro.below(1000)));
+    if (c.s("cap") == "declared")
+      c.set("cap", declared_cap(ro));
     c.set("outfill", (int64_t)(ro.chance(1, 2) ? 0xC7 : 0x00));
     if (ro.chance(1, 4))
       describe_msg(c, ro);
@@ -663,6 +677,12 @@ void gen_c13(Plan& p, bool thorough) {
   Case c = sign_case(r, prim, "c13");
   c.set("cap", "max").set("place", "edge");
   p.tasks[0].push_back(c);
+  // "a buffer of at least the advertised size": the same buffer with a far larger declared capacity
+  Case d = sign_case(r, prim, "c13");
+  d.set("cap", r.chance(1, 6) ? std::string("sizemax") : declared_cap(r)).set("place", "edge");
+  if (!pp.kkw && r.chance(1, 2))
+    d.set("och", r.chance(1, 2) ? "nonzero" : "all1").setu("oseed", r.next() >> 20);
+  p.tasks[0].push_back(d);
 }
 void gen_c14(Plan& p, bool thorough) {
 
@@ -950,11 +970,14 @@ void gen_c17(Plan& p, bool thorough) {
     g.set("op", "keygen").set("param", param).set("surf", (int64_t)r.below(3)).set("rs", "rand").setu("rseed", r.next() >> 20).set("chk", "c07").set("f.rng_err", "EAGAIN").set("f.rng_req", (int64_t)r.below(2));
     p.tasks[0].push_back(g);
   }
-  if (8 * pp.ios - pp.n > 0) { // padding validation is compiled under instance switches as well
-    Case i;
-    i.set("op", "import").set("pb", param).set("param", param).set("which", r.chance(1, 2) ? "sk" : "pk").set("surf", (int64_t)r.below(2)).set("n", 100).setu("kseed", r.next() >> 20);
-    i.set("chk", "c11").set("kpat", "rand").set("padf", (int64_t)(1 + r.below(3))).set("padv", (int64_t)(1 + r.below(127)));
-    p.tasks[0].push_back(i);
+  if (8 * pp.ios - pp.n > 0) { // padding validation is compiled under instance switches as well (separately per surface and key kind)
+    for (int sf = 0; sf < 2; sf++)
+      for (int which = 0; which < 2; which++) {
+        Case i;
+        i.set("op", "import").set("pb", param).set("param", param).set("which", which ? "sk" : "pk").set("surf", sf).set("n", 100).setu("kseed", r.next() >> 20);
+        i.set("chk", "c11").set("kpat", "rand").set("padf", (int64_t)(1 + r.below(which ? 7 : 3))).set("padv", (int64_t)(1 + 2 * r.below(64)));
+        p.tasks[0].push_back(i);
+      }
   }
   Case n1 = km;
   n1.set("op", "nist").set("sub", "sign");
